@@ -4,3 +4,4 @@ pub mod envmodel;
 pub mod fsutil;
 pub mod props;
 pub mod tv;
+pub mod worker;
